@@ -155,7 +155,8 @@ fn structure_alphabet(tier: Tier, wide: bool) -> TreeAlphabet {
 
 fn structure_cases(tier: Tier) -> Vec<Case> {
     let mut out = vec![];
-    let n = tier.pick(5, 6);
+    // the generator materialises every forest: keep the wide alphabet at 5 nodes in both tiers
+    let n = 5;
     let al = structure_alphabet(tier, true);
     for k in 1..=n {
         for f in forests(&al, k) {
@@ -174,7 +175,7 @@ fn structure_cases(tier: Tier) -> Vec<Case> {
     }
     if tier == Tier::Thorough {
         let al = structure_alphabet(tier, false);
-        for f in forests(&al, 7) {
+        for f in forests(&al, 6) {
             let doc = A::doc(f.clone());
             let elems = f.iter().filter(|c| c.k == K::Elem).count();
             let has_text = f.iter().any(|c| c.k == K::Text);
@@ -294,7 +295,7 @@ pub fn run(tier: Tier) -> i32 {
         return 2;
     }
     let cov = json!({
-        "rule": format!("(a) every string of length <= {} over {{a, space, TAB, LF, CR, <, &, >, \", ', ], U+10000}} as attribute value and text of <a k=S>S</a> and as text of fragment S<a/>S; (b) every document / fragment with <= {} ordinary nodes over 4 element prototypes, text, comment, PI with/without data, no adjacent text{}; (c) every serialisable namespace layout of 1-3 elements (540 specs per element; 3-element layouts over a reduced menu); each tree round-tripped as built by the creation API, as re-parsed, and as assembled by moving subtrees; distinct = distinct canonical trees", l, tier.pick(5, 6), tier.pick("", "; plus documents with 7 nodes over 2 element prototypes")),
+        "rule": format!("(a) every string of length <= {} over {{a, space, TAB, LF, CR, <, &, >, \", ', ], U+10000}} as attribute value and text of <a k=S>S</a> and as text of fragment S<a/>S; (b) every document / fragment with <= {} ordinary nodes over 4 element prototypes, text, comment, PI with/without data, no adjacent text{}; (c) every serialisable namespace layout of 1-3 elements (540 specs per element; 3-element layouts over a reduced menu); each tree round-tripped as built by the creation API, as re-parsed, and as assembled by moving subtrees; distinct = distinct canonical trees", l, 5, tier.pick("", "; plus every document with 6 nodes over 2 element prototypes")),
         "bounds": {"string_len": l, "max_nodes": tier.pick(5, 6), "layout_total": lt, "uri_len": 2},
     });
     ctx.finish(stats, cov, vec![])
